@@ -142,6 +142,7 @@ def g_merge(repo):
     g.type(PV, 'MapValue', derive=None, extra_subst=[('indexmap::IndexMap<String, PathAwareValue>', 'IndexMapSV')])
     g.type(PV, 'PathAwareValue', derive=None)
     g.fn(None, PV, 'extend_str', impl=r'impl Path', stub=True, wrap_impl='impl Path')
+    g.fn('U-isnull', PV, 'is_null', impl=r'impl PathAwareValue', spec='pav_is_null.spec', wrap_impl='impl PathAwareValue', props=['C17'])
     g.fn('U-merge', PV, 'merge', impl=r'impl PathAwareValue', spec='merge.spec', wrap_impl='impl PathAwareValue', props=['C17'])
     g.unit_meta['L-merge'] = dict(function='lemma_lookup_concat, lemma_lookup_absent, lemma_union_commutes', file='/verif/verus/prelude_merge.rs',
                                   clauses=dict(requires=0, ensures=3, invariant=0, decreases=2), props=['C17'], spec=None, lemma=True)
@@ -225,4 +226,53 @@ def g_index2(repo):
     return g
 
 
-GROUPS = {'index2': g_index2, 'index': g_index, 'tracker': g_tracker, 'validate': g_validate, 'eval_blocks': g_eval_blocks, 'report': g_report, 'merge': g_merge, 'status': g_status, 'exit': g_exit, 'eval': g_eval, 'eval_disp': g_eval_disp}
+def g_tables(repo):
+    """R14: the three lazy_static string tables of rules/mod.rs are extracted as literal lists; obligation: every member of
+    SINGLE_VALUE_FUNC_REF / SEQUENCE_VALUE_FUNC_REF is a key of SHORT_FORM_TO_LONG_MAPPING -- the precondition under which the
+    `unreachable!()` of short_form_to_long is unreachable at its call sites (which all test set membership first)."""
+    import re
+    import extract as X
+    g = GroupBuild('tables', repo)
+    src = g.src(RULES + 'mod.rs')
+    text = X.strip_comments(src.src)
+
+    def table(name):
+        m = re.search(r'static\s+ref\s+' + name + r'\b[^=]*=\s*\{', text)
+        if not m:
+            raise X.LostAnchor('lazy_static table %s not found' % name)
+        mask = X.code_mask(text)
+        close = X.match_close(text, mask, m.end() - 1)
+        body = text[m.end():close]
+        keys = re.findall(r'\.insert\(\s*"([^"]*)"', body)
+        if not keys:
+            raise X.LostAnchor('table %s has no literal insert' % name)
+        return keys, body
+    mk, mbody = table('SHORT_FORM_TO_LONG_MAPPING')
+    sk, sbody = table('SINGLE_VALUE_FUNC_REF')
+    qk, qbody = table('SEQUENCE_VALUE_FUNC_REF')
+    # the function itself must still be the lookup-or-unreachable the obligation is about
+    (a, kw, o, c) = src.find_fn('short_form_to_long')
+    fbody = ' '.join(src.src[o:c + 1].split())
+    if 'SHORT_FORM_TO_LONG_MAPPING.get(fn_ref)' not in fbody or 'unreachable!()' not in fbody:
+        raise X.LostAnchor('short_form_to_long no longer has the shape `match MAPPING.get(fn_ref) { Some(..) => .., _ => unreachable!() }`')
+    lines = ['// generated from the literals of guard/src/rules/mod.rs (R14)',
+             'pub open spec fn is_mapping_key(s: Seq<char>) -> bool {',
+             '    ' + ' || '.join('s == "%s"@' % k for k in mk),
+             '}',
+             '// U-tables: no member of the two function-reference sets can reach the unreachable!() of short_form_to_long',
+             'pub proof fn single_value_refs_are_mapped()',
+             '    ensures',
+             ''.join('        is_mapping_key("%s"@),\n' % k for k in sk).rstrip('\n'),
+             '{}',
+             'pub proof fn sequence_value_refs_are_mapped()',
+             '    ensures',
+             ''.join('        is_mapping_key("%s"@),\n' % k for k in qk).rstrip('\n'),
+             '{}']
+    g.parts.append(('fn', 'U-tables', RULES + 'mod.rs::short_form_to_long tables', '\n'.join(lines) + '\n'))
+    g.listing.append('### lazy_static tables of rules/mod.rs (R14: literal lists extracted)\nMAPPING keys: %s\nSINGLE: %s\nSEQUENCE: %s\n' % (mk, sk, qk))
+    g.unit_meta['U-tables'] = dict(function='short_form_to_long (table consistency: SINGLE_VALUE_FUNC_REF + SEQUENCE_VALUE_FUNC_REF are keys of SHORT_FORM_TO_LONG_MAPPING)',
+                                   file=RULES + 'mod.rs', clauses=dict(requires=0, ensures=len(sk) + len(qk), invariant=0, decreases=0), props=['C08'], spec=None, lemma=True)
+    return g
+
+
+GROUPS = {'tables': g_tables, 'index2': g_index2, 'index': g_index, 'tracker': g_tracker, 'validate': g_validate, 'eval_blocks': g_eval_blocks, 'report': g_report, 'merge': g_merge, 'status': g_status, 'exit': g_exit, 'eval': g_eval, 'eval_disp': g_eval_disp}
